@@ -338,7 +338,20 @@ func (db *RockDB) DelKeys(keys ...[]byte) (int64, error) {
 	}
 
 	delCnt := int64(0)
+	// a key named twice is deleted (and counted, also in the table key counter)
+	// once: the existence check below reads committed data, which does not
+	// see the first occurrence's delete yet
+	var seen map[string]struct{}
+	if len(keys) > 1 {
+		seen = make(map[string]struct{}, len(keys))
+	}
 	for _, k := range keys {
+		if seen != nil {
+			if _, dup := seen[string(k)]; dup {
+				continue
+			}
+			seen[string(k)] = struct{}{}
+		}
 		c, _ := db.kvDel(k, db.wb)
 		delCnt += c
 	}
